@@ -52,16 +52,18 @@ func instrumentDir(sp InstrumentSpec, done map[string]bool) {
 		imports = sp.Imports
 	}
 	for _, f := range files {
-		instrumentFile(f, imports)
+		instrumentFile(f, imports, sp.MapAccess)
 		done[f] = true
 	}
 }
 
 type instr struct {
-	fset     *token.FileSet
-	file     string
-	usedSch  bool
-	tmpCount int
+	fset      *token.FileSet
+	file      string
+	usedSch   bool
+	tmpCount  int
+	mapAccess bool
+	pkgNames  map[string]bool // local names of the file's imports
 }
 
 func (in *instr) fail(n ast.Node, format string, a ...interface{}) {
@@ -182,9 +184,124 @@ func chOrNil(ch ast.Expr) ast.Expr {
 	return ast.NewIdent("nil")
 }
 
+// ---- map accesses (vsched.Access) ----
+
+type mapAcc struct {
+	x     ast.Expr
+	write bool
+}
+
+// watched: x.field where x is an identifier that is not an imported package.
+func (in *instr) watched(e ast.Expr) bool {
+	s, ok := e.(*ast.SelectorExpr)
+	if !ok {
+		return false
+	}
+	id, ok := s.X.(*ast.Ident)
+	return ok && !in.pkgNames[id.Name]
+}
+
+// accessesOf lists the map-like accesses a statement performs itself: simple statements entirely,
+// compound statements in their header only (bodies are statement lists of their own; the header of
+// an else-if is left out rather than reported when it may not run).
+func (in *instr) accessesOf(s ast.Stmt) []mapAcc {
+	var out []mapAcc
+	writes := map[ast.Expr]bool{}
+	var scan func(n ast.Node)
+	scan = func(n ast.Node) {
+		if n == nil {
+			return
+		}
+		ast.Inspect(n, func(x ast.Node) bool {
+			switch e := x.(type) {
+			case *ast.FuncLit:
+				return false
+			case *ast.AssignStmt:
+				for _, l := range e.Lhs {
+					if ix, ok := l.(*ast.IndexExpr); ok {
+						writes[ix] = true
+					}
+				}
+			case *ast.IncDecStmt:
+				if ix, ok := e.X.(*ast.IndexExpr); ok {
+					writes[ix] = true
+				}
+			case *ast.CallExpr:
+				if id, ok := e.Fun.(*ast.Ident); ok && id.Name == "delete" && len(e.Args) == 2 && in.watched(e.Args[0]) {
+					out = append(out, mapAcc{e.Args[0], true})
+				}
+				if ix, ok := e.Fun.(*ast.IndexExpr); ok { // generic instantiation f[T](...)
+					writes[ix] = false
+					for _, a := range e.Args {
+						scan(a)
+					}
+					return false
+				}
+			case *ast.IndexExpr:
+				if in.watched(e.X) {
+					out = append(out, mapAcc{e.X, writes[e]})
+				}
+			}
+			return true
+		})
+	}
+	switch st := s.(type) {
+	case *ast.IfStmt:
+		scan(st.Init)
+		scan(st.Cond)
+	case *ast.ForStmt:
+		scan(st.Init)
+		scan(st.Cond)
+	case *ast.RangeStmt:
+		if in.watched(st.X) {
+			out = append(out, mapAcc{st.X, false})
+		}
+		scan(st.X)
+	case *ast.SwitchStmt:
+		scan(st.Init)
+		scan(st.Tag)
+	case *ast.TypeSwitchStmt:
+		scan(st.Init)
+	case *ast.BlockStmt, *ast.SelectStmt, *ast.LabeledStmt, *ast.GoStmt, *ast.DeferStmt:
+		// bodies are handled as their own lists; go/defer run later
+	default:
+		scan(s)
+	}
+	return out
+}
+
+func (in *instr) accessCalls(s ast.Stmt) []ast.Stmt {
+	if !in.mapAccess {
+		return nil
+	}
+	var out []ast.Stmt
+	seen := map[string]bool{}
+	for _, a := range in.accessesOf(s) {
+		var sb strings.Builder
+		_ = printer.Fprint(&sb, in.fset, a.x)
+		w := "false"
+		if a.write {
+			w = "true"
+		}
+		if seen[sb.String()+w] {
+			continue
+		}
+		seen[sb.String()+w] = true
+		in.usedSch = true
+		get := &ast.FuncLit{
+			Type: &ast.FuncType{Params: &ast.FieldList{}, Results: &ast.FieldList{List: []*ast.Field{{Type: &ast.InterfaceType{Methods: &ast.FieldList{}}}}}},
+			Body: &ast.BlockStmt{List: []ast.Stmt{&ast.ReturnStmt{Results: []ast.Expr{a.x}}}},
+		}
+		what := fmt.Sprintf("%s:%d %s", filepath.Base(in.file), in.fset.Position(s.Pos()).Line, sb.String())
+		out = append(out, &ast.ExprStmt{X: call(sel("vsched", "Access"), get, &ast.BasicLit{Kind: token.STRING, Value: strconv.Quote(what)}, ast.NewIdent(w))})
+	}
+	return out
+}
+
 func (in *instr) rewriteList(list []ast.Stmt) []ast.Stmt {
 	var out []ast.Stmt
 	for _, s := range list {
+		out = append(out, in.accessCalls(s)...)
 		// labelled statements: rewrite the inner statement, keep the label on the first result
 		if ls, ok := s.(*ast.LabeledStmt); ok {
 			if r := in.rewriteStmt(ls.Stmt); r != nil {
@@ -240,7 +357,7 @@ func (in *instr) walk(n ast.Node) {
 	})
 }
 
-func instrumentFile(file string, imports map[string]string) {
+func instrumentFile(file string, imports map[string]string, mapAccess bool) {
 	fset := token.NewFileSet()
 	// comments are dropped (new nodes have no positions and would attract them); build
 	// constraints are carried over verbatim
@@ -261,7 +378,15 @@ func instrumentFile(file string, imports map[string]string) {
 	if err != nil {
 		die("parse %s: %v", file, err)
 	}
-	in := &instr{fset: fset, file: file}
+	in := &instr{fset: fset, file: file, mapAccess: mapAccess, pkgNames: map[string]bool{}}
+	for _, im := range f.Imports {
+		p, _ := strconv.Unquote(im.Path.Value)
+		if im.Name != nil {
+			in.pkgNames[im.Name.Name] = true
+		} else {
+			in.pkgNames[filepath.Base(p)] = true
+		}
+	}
 	for _, d := range f.Decls {
 		if fd, ok := d.(*ast.FuncDecl); ok && fd.Body != nil {
 			in.walk(fd.Body)
